@@ -128,7 +128,7 @@ def fidelity(cfg, repo='/repo'):
     if not exe:
         return None, 'witness tool not built', 0
     try:
-        p = subprocess.run([exe, 'search', 'all', '--universe', str(cfg.get('universe', 7)), '--max-seconds', str(cfg.get('max_seconds', 300))],
+        p = subprocess.run([exe, 'search', cfg.get('target', 'all'), '--universe', str(cfg.get('universe', 7)), '--max-seconds', str(cfg.get('max_seconds', 300))],
                            stdout=subprocess.PIPE, stderr=subprocess.PIPE, text=True, timeout=cfg.get('max_seconds', 300) + 120)
     except subprocess.TimeoutExpired:
         return None, 'timeout', 0
@@ -138,5 +138,5 @@ def fidelity(cfg, repo='/repo'):
     except ValueError:
         return None, 'unparsable output', 0
     if js.get('found') is False:
-        return True, 'real crate agrees with the set/map oracle on %d cases (universe %d)' % (js.get('cases', 0), cfg.get('universe', 7)), js.get('cases', 0)
+        return True, 'real crate agrees with the oracle of witness target %s on %d cases' % (cfg.get('target', 'all'), js.get('cases', 0)), js.get('cases', 0)
     return False, json.dumps(js)[:600], 0
